@@ -92,6 +92,16 @@ _g(5, 1, 0, 0, 2, _H + "%%\nE: " + " | ".join("'%s' { %d }" % (t, i) for i, t in
 _g(6, 1, 0, 0, 2, _H + "%%\nE: " + " | ".join("'%s' { %d }" % (t, i + 1) for i, t in enumerate(_BIGT)) + " ;\n")
 _L[3] = ("%%\n" + "".join("x%dy \"%s\"\n" % (i, t) for i, t in enumerate(_BIGT)) + "[ \\t\\n]+ ;\n", 1, 0)
 
+# token names with characters that mean something where the builders record them (the CACHE INFORMATION text is a Rust
+# string literal inside a /* ... */ comment of the generated file): comment delimiters, both quotes, a backslash, a line
+# comment, braces, a non-ASCII character; token-map class 3; lexer 4 names exactly these tokens
+_g(7, 1, 0, 0, 3, _H + "%%\nE: E \"*/\" T { $1 + $3 } | T { $1 } ;\nT: T '/*' F { $1 * $3 } | F { $1 } ;\n"
+   "F: '\"' E \"'\" { $2 } | '\\' { 1 } | '//' { 2 } | \"\u00e9{\" { 3 } | '*\\/' { 4 } ;\n")
+_g(8, 1, 0, 0, 3, _H + "%%\nE: E \"*/\" T { $1 * $3 } | T { $1 } ;\nT: T '/*' F { $1 + $3 } | F { $1 } ;\n"
+   "F: '\"' E \"'\" { $2 } | '\\' { 5 } | '//' { 2 } | \"\u00e9{\" { 3 } | '*\\/' { 4 } ;\n")
+_L[4] = ("%%\n\\*/ \"*/\"\n/\\* \"/*\"\nq '\"'\np \"'\"\nb \"\\\"\n// \"//\"\n\u00e9\\{ \"\u00e9{\"\ns '*\\/'\n[ \\t\\n]+ ;\n", 1, 0)
+ODD_G, ODD_L = [7, 8], 4
+
 VALID_G = [0, 1, 2, 3, 4]
 CONF_G = [10, 11]
 WARN_G = [20, 21]
@@ -242,6 +252,13 @@ def targeted_histories():
     for mode in ("P", "C"):
         hs.append((mode, 5, 3, [("B",), ("B",), ("S", "vis", 1), ("B",), ("B",)]))
         hs.append((mode, 5, 3, [("B",), ("Y", 6), ("B",), ("B",), ("Y", 6), ("B",), ("Y", 5), ("B",)]))
+    # token names containing */ /* " ' \\ // { and a non-ASCII character (paired with their own lexer only): an unchanged
+    # configuration must be recognised as unchanged whatever the names are; an edit must regenerate
+    for mode in ("P", "C"):
+        hs.append((mode, 7, ODD_L, [("B",), ("B",), ("B",)]))
+        hs.append((mode, 7, ODD_L, [("B",), ("B",), ("S", "vis", 1), ("B",), ("B",)]))
+        hs.append((mode, 7, ODD_L, [("B",), ("Y", 8), ("B",), ("B",), ("Y", 8), ("B",), ("Y", 7), ("B",), ("B",)]))
+        hs.append((mode, 8, ODD_L, [("S", "mod", 1), ("B",), ("B",), ("S", "st", 1), ("B",), ("B",)]))
     for mode in ("P", "C"):
         hs.append((mode, 0, 0, [("B",), ("Y", 30), ("B",), ("Y", 1), ("B",)]))            # syntax error after a good build
         hs.append((mode, 0, 0, [("B",), ("Y", 10), ("B",), ("S", "eoc", 0), ("B",), ("S", "eoc", 1), ("B",)]))
@@ -344,7 +361,8 @@ def norm(data, casedir):
     s = _TS_LEX.sub("", s)
     s = _STABLE.sub(_sort_bytes, s)
     s = _TS_PAR.sub("BUILD_TIME = <T>", s)
-    return s.replace(casedir, "<CASE>")
+    # (a history may keep its sources in `src*` instead of `src`: the content class does not depend on that)
+    return s.replace(casedir, "<CASE>").replace("<CASE>/src*/", "<CASE>/src/")
 
 
 def read_norm(path, casedir):
@@ -394,12 +412,14 @@ def set_mtime(path, t):
     os.utime(path, (BASE_T + 100 * t, BASE_T + 100 * t))
 
 
-def run_history(exe, idx, mode, g0, l0, ops, times, symlink=False, api="build"):
+def run_history(exe, idx, mode, g0, l0, ops, times, symlink=False, api="build", stardir=False):
     """replays one history; returns per-op observations.  With symlink=True the grammar and lexer paths handed to the
     builders are symbolic links (whose own timestamps never change) to the files that are edited."""
     casedir = os.path.join(WORKROOT, "h%05d" % idx)
     shutil.rmtree(casedir, ignore_errors=True)
-    src, out = os.path.join(casedir, "src"), os.path.join(casedir, "out")
+    # stardir: the grammar lives in a directory whose name ends in '*': its path (recorded by the parser builder)
+    # contains the two characters "*/"
+    src, out = os.path.join(casedir, "src*" if stardir else "src"), os.path.join(casedir, "out")
     os.makedirs(src)
     os.makedirs(out)
     ypath, lpath = os.path.join(src, "g.y"), os.path.join(src, "l.l")
@@ -582,6 +602,13 @@ def _run(ctx, exe, mexe, rng):
     symlinked.add(len(hs))
     hs.append(("C", 0, 0, [("B",), ("L", 1), ("B",), ("L", 2), ("Y", 1), ("B",), ("B",)], default_times([0] * 7)))
     ctx.count("histories_through_symlinks", len(symlinked))
+    # the grammar's path contains "*/" (a directory named `src*`)
+    starred = set()
+    for mode in ("P", "C"):
+        for g0, l0, ops in ((0, 0, [("B",), ("B",), ("Y", 1), ("B",), ("B",)]), (7, ODD_L, [("B",), ("B",), ("S", "ed", 1), ("B",), ("B",)])):
+            starred.add(len(hs))
+            hs.append((mode, g0, l0, ops, default_times(ops)))
+    ctx.count("histories_with_star_slash_in_the_grammar_path", len(starred))
     # ---- the entry point of the parser builder is an input too (mode P; in mode C the lexer builder drives it) ----
     apis = {}
     for (api, mode, g0, l0, ops, ts) in process_file_histories():
@@ -596,7 +623,7 @@ def _run(ctx, exe, mexe, rng):
     mlines = [model_line(m, g0, l0, ops, ts) for (m, g0, l0, ops, ts) in hs]
     model = core.run_lines([mexe], mlines)
     with concurrent.futures.ThreadPoolExecutor(max_workers=max(2, core.NPROC)) as ex:
-        futs = [ex.submit(run_history, exe, i, m, g0, l0, ops, ts, i in symlinked, apis.get(i, "build"))
+        futs = [ex.submit(run_history, exe, i, m, g0, l0, ops, ts, i in symlinked, apis.get(i, "build"), i in starred)
                 for i, (m, g0, l0, ops, ts) in enumerate(hs)]
         impl = [f.result() for f in futs]
 
@@ -621,10 +648,15 @@ def _run(ctx, exe, mexe, rng):
         changes_between = any(ops[k][0] != "B" for k in range(builds[0], builds[-1])) if len(builds) >= 2 else False
         nontriv = len(builds) >= 2 and changes_between
         api = apis.get(i, "build")
-        canon = "%s %d %d %s %s" % (mode, g0, l0, ops, times) + (" api=process_file" if api == "process_file" else "")
+        canon = "%s %d %d %s %s" % (mode, g0, l0, ops, times) + (" api=process_file" if api == "process_file" else "") + (" stardir" if i in starred else "")
         same_tick = any(times[k] == times[k - 1] for k in range(1, len(times)))
         hist_json = {"mode": mode, "entry_point": ("CTParserBuilder::%s" % api) if mode == "P" else "CTLexerBuilder::build + lrpar_config",
                      "g0": g0, "l0": l0, "ops": [list(o) for o in ops], "times": times, "model_line": ml}
+        if g0 in ODD_G or i in starred:
+            hist_json["grammar_text"] = _G[g0][0]
+            hist_json["lexer_text"] = _L[l0][0]
+            hist_json["grammar_path"] = "<case>/src*/g.y" if i in starred else "<case>/src/g.y"
+            ctx.count("histories_with_odd_token_names_or_path")
         if same_tick:
             ctx.count("histories_with_equal_ticks")
         ctx.case(canon, nontriv, {"history": hist_json, "model": model[i][:400]})
@@ -746,7 +778,9 @@ def _run(ctx, exe, mexe, rng):
         "written files, existence + content class (descriptor<->bytes bijection over the run) vs the mirror and bytes vs "
         "a build into an empty directory; the parser builder's entry point is an input (mode P): the good-build -> broken grammar "
         "(syntax error / undefined rule / warning with warnings_are_errors / conflicts) -> build shapes run through build() "
-        "and through the deprecated process_file(), the targeted one-option and same-tick mode-P histories and extra random "
+        "and through the deprecated process_file(); a grammar + lexer whose token names contain */ /* \" ' \\ // { and a non-ASCII "
+        "character (build, build again -> not regenerated; option change / edit / touch -> regenerated), also with the grammar in "
+        "a directory named `src*` (path contains */); the targeted one-option and same-tick mode-P histories and extra random "
         "mode-P histories run through process_file() as well, against the same mirror (regenerated() is not observable "
         "there); non-trivial = at least 2 builds with a change between them; distinct by history")
     ctx.coverage["exhaustive"] = False
